@@ -21,6 +21,8 @@
 //	         inserted (real AddBlock) by the nodes that are not left behind
 //	deliver  a node that is behind receives its next block (AddBlock only)
 //	probe    every synced node validates a block that is valid under one set of consensus rules only
+//	crash    a node that is behind receives its next block and dies inside one of the durable writes of the insertion
+//	         (crash-injecting database of C09), then starts again over what survived
 //	reorg    the last block, which only some nodes inserted, is orphaned: the others commit the empty block at that height and
 //	         the holders switch to it with Blockchain.ResetTo + AddBlock (what the fork resolver's applyFork does)
 //
@@ -70,7 +72,7 @@ import (
 
 // step is one environment choice of a schedule.
 type step struct {
-	K   string        `json:"k"`   // tick | vote | persist | restart | round | deliver | probe | reorg | at
+	K   string        `json:"k"`   // tick | vote | persist | restart | round | deliver | probe | reorg | crash | at
 	T   int           `json:"t"`   // tick: the new tick;  at: absolute second (seeded generator only)
 	I   int           `json:"i"`   // vote: voter key
 	B   int           `json:"b"`   // vote: Upgrade bits
@@ -82,6 +84,9 @@ type step struct {
 	F   int           `json:"f"`   // round: 1 = a Byzantine committee certifies a block validators refuse
 	R   []int         `json:"r"`   // round: the nodes that insert the block now (nil = every synced node)
 	X   []interface{} `json:"x"`   // probe: [kind, rules version]
+	Ck  string        `json:"ck"`  // crash: "lost" = the process dies in the first durable write of the insertion, "kept" = in the first write after the
+	//                             block became the head (stored consensus version / intermediate genesis), "idx" = in durable write number Ci
+	Ci  int           `json:"ci"`  // crash: write index for "idx"
 	Z   int           `json:"z"`   // round: 1 = the clock stays where it is when the block time allows (seeded generator only)
 }
 
@@ -115,6 +120,7 @@ type params struct {
 
 type node struct {
 	key   int
+	cdb   *sim.CrashDB // the node's durable store; every incarnation of the node sees it through its own handle
 	n     *sim.Node
 	votes *pengings.Votes
 	repo  *database.Repo
@@ -136,7 +142,7 @@ type world struct {
 
 type runStats struct {
 	worlds, blocks, votes, persists, restarts, offers, crafted, forced, refused, upgrades, newgen, delivers, probes, queries, full, lagged int
-	secondUpg, empty, reorgs                                                                                                        int
+	secondUpg, empty, reorgs, crashes, crashKept                                                                                    int
 }
 
 func (w *world) now() int64 { return w.w.Clock.Ticks() }
@@ -256,7 +262,10 @@ func newWorld(seed int64, hid string, p params, out *tr.W, rnd *rand.Rand, st *r
 	}
 	sw.Clock.Advance(p.start - sw.Clock.Ticks())
 	for k := 0; k < p.nIds; k++ {
-		w.nodes = append(w.nodes, w.boot(k, dbm.NewMemDB(), nil, 0))
+		cdb := sim.NewCrashDB(dbm.NewMemDB())
+		nd := w.boot(k, cdb.NewHandle(), nil, 0)
+		nd.cdb = cdb
+		w.nodes = append(w.nodes, nd)
 	}
 	st.worlds++
 	w.prefix()
@@ -583,7 +592,8 @@ func (w *world) restart(st step) {
 	old := w.nodes[st.N]
 	var nd *node
 	r, msg := judge(func() error {
-		nd = w.boot(old.key, old.n.DB, old.n.Ipfs, 0)
+		nd = w.boot(old.key, old.cdb.NewHandle(), old.n.Ipfs, 0)
+		nd.cdb = old.cdb
 		return nil
 	})
 	if r != 1 {
@@ -912,6 +922,74 @@ func (w *world) reorg(st step) {
 	w.out.Emit(tr.M{"ev": "Reorg", "hid": w.hid, "h": tip, "orphan": orphan, "blk": blockRec(alt), "now": w.now(), "ins": ins, "sts": w.states()})
 }
 
+// crash: a node that is behind receives its next block and its process dies inside one of the durable writes of the
+// insertion (sim.CrashDB: the write and everything after it is lost); the node is then started again over what survived.
+func (w *world) crash(st step) {
+	if st.N < 0 || st.N >= len(w.nodes) {
+		return
+	}
+	nd := w.nodes[st.N]
+	h := nd.n.Chain.Head.Height()
+	if nd.dead || h >= w.tip() {
+		return
+	}
+	data := w.chain[h-w.h0]
+	blk := sim.Decode(data)
+	rec := blockRec(blk)
+	switch st.Ck {
+	case "lost":
+		nd.cdb.Arm(0)
+	case "kept":
+		switch {
+		case rec["upg"].(int) > 0:
+			nd.cdb.ArmKind("ConsVer", 1)
+		case rec["ng"].(bool):
+			nd.cdb.ArmKind("IGenesis", 1)
+		default:
+			return
+		}
+	default:
+		nd.cdb.Arm(st.Ci)
+	}
+	r, msg := w.add(nd, data)
+	died := nd.cdb.Dead()
+	lost := ""
+	if nd.cdb.Lost != nil {
+		lost = nd.cdb.Lost.K
+	}
+	wi := nd.cdb.Count()
+	nd.cdb.Disarm()
+	if !died {
+		// the armed write never came (a block that writes neither version nor genesis, an index beyond the last write): an
+		// ordinary delivery
+		if r != 1 {
+			nd.dead = true
+		}
+		w.stats.delivers++
+		w.out.Emit(tr.M{"ev": "Deliver", "hid": w.hid, "n": st.N, "h": h + 1, "blk": rec, "res": r, "msg": msg, "now": w.now(), "sts": w.states()})
+		return
+	}
+	var nn *node
+	r2, msg2 := judge(func() error {
+		nn = w.boot(nd.key, nd.cdb.NewHandle(), nd.n.Ipfs, 0)
+		nn.cdb = nd.cdb
+		return nil
+	})
+	w.stats.crashes++
+	if r2 != 1 {
+		nd.dead = true
+		w.out.Emit(tr.M{"ev": "Crash", "hid": w.hid, "n": st.N, "h": h + 1, "blk": rec, "ck": st.Ck, "wi": wi, "lost": lost, "res": r2, "msg": msg2, "kept": false, "now": w.now(), "sts": w.states()})
+		return
+	}
+	nd.n.Close()
+	w.nodes[st.N] = nn
+	kept := nn.n.Chain.Head.Height() == h+1
+	if kept {
+		w.stats.crashKept++
+	}
+	w.out.Emit(tr.M{"ev": "Crash", "hid": w.hid, "n": st.N, "h": h + 1, "blk": rec, "ck": st.Ck, "wi": wi, "lost": lost, "res": 1, "msg": "", "kept": kept, "now": w.now(), "sts": w.states()})
+}
+
 func (w *world) exec(steps []step) {
 	for _, st := range steps {
 		switch st.K {
@@ -931,6 +1009,8 @@ func (w *world) exec(steps []step) {
 			w.probe(st)
 		case "reorg":
 			w.reorg(st)
+		case "crash":
+			w.crash(st)
 		default:
 			panic("unknown step " + st.K)
 		}
@@ -1004,6 +1084,6 @@ func main() {
 		randomWorld(seed, i, *rlen, o, rnd, st)
 	}
 	sim.Cleanup()
-	fmt.Fprintf(os.Stdout, "worlds=%d blocks=%d votes=%d persists=%d restarts=%d offers=%d crafted=%d forced=%d refused=%d upgrades=%d newgen=%d delivers=%d probes=%d queries=%d full=%d lagged=%d empty=%d cases=%d listener=%d reorgs=%d\n",
-		st.worlds, st.blocks, st.votes, st.persists, st.restarts, st.offers, st.crafted, st.forced, st.refused, st.upgrades, st.newgen, st.delivers, st.probes, st.queries, st.full, st.lagged, st.empty, ncases, nlisten, st.reorgs)
+	fmt.Fprintf(os.Stdout, "worlds=%d blocks=%d votes=%d persists=%d restarts=%d offers=%d crafted=%d forced=%d refused=%d upgrades=%d newgen=%d delivers=%d probes=%d queries=%d full=%d lagged=%d empty=%d cases=%d listener=%d reorgs=%d crashes=%d crashkept=%d\n",
+		st.worlds, st.blocks, st.votes, st.persists, st.restarts, st.offers, st.crafted, st.forced, st.refused, st.upgrades, st.newgen, st.delivers, st.probes, st.queries, st.full, st.lagged, st.empty, ncases, nlisten, st.reorgs, st.crashes, st.crashKept)
 }
